@@ -479,7 +479,11 @@ class Model:
             kwargs = {kk: self.argval(a, env, lvl) for kk, a in e[3]}
             fname = e[1]
             if fname in env:
-                raise IllFormed('call through a local name')
+                # a template passed as an argument and called through the parameter
+                v = env[fname]
+                if isinstance(v, Closure) and v.expr[0] == 'ref' and v.expr[1] not in v.env:
+                    return self.call_rule(v.expr[1], args, kwargs, pos, self.top)
+                raise IllFormed('call through a local name that is not a rule')
             return self.call_rule(fname, args, kwargs, pos, self.top)
         if k == 'supercall':
             # super.T(args): the template as seen from the parent of the grammar that contains the call
